@@ -192,9 +192,16 @@ func progIncludes() *Program {
 	f.Include("../c/deep/ref.thrift", ref)
 	mShared := f.AddStruct("struct", "Shared", fld(1, "main_only", T(String)), fld(3, "third", T(Bool)))
 	mShared.Feat = "includes,same-struct-name"
+	// typedefs of the INCLUDED file that name its own Shared (scalar alias, list alias): referenced from main after
+	// main's own struct of that name
+	tdShared := inc.AddTypedef("SharedRef", Ref(iShared))
+	tdShareds := inc.AddTypedef("SharedList", ListOf(Ref(iShared)))
 	req := f.AddStruct("struct", "Req", fld(1, "mine", Ref(mShared)), fld(2, "theirs", Ref(iShared)), fld(3, "box", Ref(iBox)), fld(4, "item", Ref(rs)), fld(5, "tree", Ref(rrec)),
-		fld(6, "lt", ListOf(Ref(iShared))), fld(7, "lm", ListOf(Ref(mShared))))
-	f.AddService("Svc", nil, fn("M", Ref(iBox), Ref(req)), fn("N", Ref(mShared), Ref(iShared)))
+		fld(6, "lt", ListOf(Ref(iShared))), fld(7, "lm", ListOf(Ref(mShared))), fld(8, "via_typedef", RefTD(tdShared)), fld(9, "via_list_typedef", RefTD(tdShareds)))
+	// ... and in a struct that sees ONLY main's Shared and the typedefs (no direct reference to the included struct first)
+	req2 := f.AddStruct("struct", "Req2", fld(1, "mine", Ref(mShared)), fld(2, "foreign", RefTD(tdShared)), fld(3, "foreign_list", RefTD(tdShareds)))
+	_ = req2
+	f.AddService("Svc", nil, fn("M", Ref(iBox), Ref(req)), fn("N", Ref(mShared), Ref(iShared)), fn("O", Ref(req2), Ref(req2)))
 	return &Program{Name: "includes", Main: f, Feat: "includes"}
 }
 
